@@ -3,8 +3,9 @@
 d=$(readlink -f "$1"); shift
 cd /repo || exit 2
 if ! git diff --quiet; then echo "repo dirty"; exit 2; fi
-if ! git apply "$d/patch.diff" 2>/dev/null; then
-  if ! patch -p1 --fuzz=3 -s < "$d/patch.diff"; then echo "PATCH-DOES-NOT-APPLY $d"; git checkout -- .; git clean -fdq -e ti; exit 3; fi
+pf="$d/patch.diff"; [ -f "$d/patch_ported.diff" ] && pf="$d/patch_ported.diff"   # the port to the repaired tree, when there is one
+if ! git apply "$pf" 2>/dev/null; then
+  if ! patch -p1 --fuzz=3 -s < "$pf"; then echo "PATCH-DOES-NOT-APPLY $d"; git checkout -- .; git clean -fdq -e ti; exit 3; fi
   echo "(applied with fuzz)"
 fi
 cd /verif
